@@ -188,6 +188,37 @@ def main(argv):
             print("%-40s %s" % (d, " ".join(line)))
             sys.stdout.flush()
         return 1 if bad else 0
+    if argv[0] == "recheck-benign":
+        # every behaviour-preserving refactoring again: the checks must stay silent (rc 0)
+        base = os.path.join(VERIF, "seeded_benign")
+        bad = 0
+        sub = [a for a in argv[1:] if not a.startswith("--")]
+        for d in sorted(os.listdir(base)):
+            m = os.path.join(base, d, "meta.json")
+            if not os.path.exists(m) or (sub and not any(x in d for x in sub)):
+                continue
+            meta = json.load(open(m))
+            if "checks" not in meta:
+                print("%-28s evaluated at its own base commit (%s): not re-run" % (d, meta.get("applies_to", "?")))
+                continue
+            props = list(meta["checks"].keys())
+            open(os.path.join(base, d, "demo.py"), "w").write("import clikit\n")
+            try:
+                res = evaluate(os.path.join(base, d), props, skip_suite=True)
+            finally:
+                os.remove(os.path.join(base, d, "demo.py"))
+            if not res.get("applies"):
+                print("%-28s patch does not apply to HEAD (evaluated at its own base earlier): %s" % (d, meta.get("note", "")))
+                continue
+            line = []
+            for p_ in props:
+                rc = res["checks"][p_]["rc"]
+                line.append("%s:%s" % (p_, "silent" if rc == 0 else "ALARM(rc=%s) %s" % (rc, "; ".join(res["checks"][p_]["oracles"][:3])[:300] or res["checks"][p_]["tail"][-200:])))
+                if rc != 0:
+                    bad += 1
+            print("%-28s %s" % (d, " ".join(line)))
+            sys.stdout.flush()
+        return 1 if bad else 0
     print(__doc__)
     return 2
 
